@@ -191,6 +191,11 @@ class TypeEnv:
     # ---- type strings ------------------------------------------------------
     def cap_for(self, elem):
         key = 'Vec' if isinstance(elem, TVec) else (getattr(elem, 'name', None) or repr(elem))
+        if key not in self.caps and isinstance(elem, TStruct):
+            # a tuple / wrapper around a configured element type (work-lists of `(BoundSet, usize)`) gets that type's capacity
+            inner = [self.caps[getattr(f, 'name', None)] for _, f in elem.fields if getattr(f, 'name', None) in self.caps]
+            if inner:
+                return max(inner)
         return self.caps.get(key, self.default_cap)
 
     def parse(self, t, sub=None):
